@@ -160,11 +160,11 @@ Proof.
   intros Li. assert (NE : ds <> []) by (intros ->; cbn in Li; lia).
   assert (Wd : ht_width (ht_build H ds) = lenN ds) by (destruct ds; [congruence | reflexivity]).
   unfold ht_inclusion_proof. rewrite Wd. unfold lenN.
-  destruct (Z.leb_spec (Z.of_N (N.of_nat (length ds))) i); [lia|].
+  destruct (Z.ltb_spec i 0); [lia|].
+  destruct (Z.leb_spec (Z.of_N (N.of_nat (length ds))) i); [lia|]. cbn [orb].
   destruct (N.eqb_spec (N.of_nat (length ds)) 1) as [E1|N1].
   - destruct ds as [|d [|e r]]; cbn [length] in *; try lia. reflexivity.
-  - destruct (Z.ltb_spec i 0); [lia|].
-    rewrite (ht_loop_ok ds NE); unfold lenN; try lia.
+  - rewrite (ht_loop_ok ds NE); unfold lenN; try lia.
     + rewrite app_nil_r, N.add_0_l, slice_0, Nnat.Nat2N.id, firstn_all. reflexivity.
     + exists 0. lia.
 Qed.
